@@ -587,14 +587,14 @@ func (w *World) queryCallConfs(chain string, scope []byte, nonce uint64) []*mhub
 }
 
 // alignSigs orders signatures by the contract's current member list; mask selects which members' sigs to use.
-func alignSigs(cur []ext.Member, sigBy map[[20]byte][]byte, mask uint64) []ext.Sig {
+func alignSigs(cur []ext.Member, sigBy map[[20]byte][]byte, mask uint64, digest [32]byte) []ext.Sig {
 	out := make([]ext.Sig, len(cur))
 	for i, m := range cur {
 		if mask != 0 && mask&(1<<uint(i%64)) == 0 {
 			continue
 		}
 		if raw, ok := sigBy[m.Addr]; ok {
-			if s, ok := ext.SigFromBytes(raw); ok {
+			if s, ok := ext.SigFromBytes(raw); ok && ext.VerifySig(m.Addr, digest, s) {
 				out[i] = s
 			}
 		}
@@ -611,10 +611,8 @@ func (w *World) doRelay(in Intent) {
 	if e == nil {
 		return
 	}
-	relayer := ext.ParseAddr("0x00000000000000000000000000000000000e1a7e")
-	if in.U > 0 {
-		relayer = w.user(in.U).Eth()
-	}
+	// relayers have their own addresses (never a user's), so fee reimbursements stay attributable
+	relayer := ext.ParseAddr(fmt.Sprintf("0x00000000000000000000000000000000e1a7e%03x", in.U%4096))
 	switch in.Op {
 	case "valset":
 		var cands []*mhub2types.SignerSetTx
@@ -632,7 +630,7 @@ func (w *World) doRelay(in Intent) {
 			sigBy[ext.ParseAddr(c.ExternalSigner)] = c.Signature
 		}
 		cur := append([]ext.Member(nil), e.Valset...)
-		sigs := alignSigs(cur, sigBy, in.Mask)
+		sigs := alignSigs(cur, sigBy, in.Mask, ext.MakeCheckpoint(membersOf(s), s.Nonce, e.GravityID))
 		call := &ExtCall{Chain: in.Chain, Kind: "valset", Info: map[string]string{"nonce": strconv.FormatUint(s.Nonce, 10)}}
 		w.preExtCall(call, s, nil, nil, sigs)
 		call.Err = e.UpdateValset(membersOf(s), s.Nonce, cur, e.ValsetNonce, sigs)
@@ -648,7 +646,7 @@ func (w *World) doRelay(in Intent) {
 			sigBy[ext.ParseAddr(c.ExternalSigner)] = c.Signature
 		}
 		cur := append([]ext.Member(nil), e.Valset...)
-		sigs := alignSigs(cur, sigBy, in.Mask)
+		sigs := alignSigs(cur, sigBy, in.Mask, ext.BatchHash(batchCallOf(b), e.GravityID))
 		gas := bigOf(in.Gas)
 		call := &ExtCall{Chain: in.Chain, Kind: "batch", Info: map[string]string{"nonce": strconv.FormatUint(b.BatchNonce, 10), "token": b.ExternalTokenId}}
 		w.preExtCall(call, nil, b, nil, sigs)
@@ -665,7 +663,7 @@ func (w *World) doRelay(in Intent) {
 			sigBy[ext.ParseAddr(cf.ExternalSigner)] = cf.Signature
 		}
 		cur := append([]ext.Member(nil), e.Valset...)
-		sigs := alignSigs(cur, sigBy, in.Mask)
+		sigs := alignSigs(cur, sigBy, in.Mask, ext.LogicCallHash(logicCallOf(c), e.GravityID))
 		call := &ExtCall{Chain: in.Chain, Kind: "logic", Info: map[string]string{"nonce": strconv.FormatUint(c.InvalidationNonce, 10)}}
 		w.preExtCall(call, nil, nil, c, sigs)
 		call.Err = e.SubmitLogicCall(cur, e.ValsetNonce, sigs, logicCallOf(c), relayer)
